@@ -52,6 +52,10 @@
 -/
 import RattrModel.Crash
 import RattrModel.Generated.C07
+import RattrModel.Generated.C17
+import RattrModel.Generated.RC
+import RattrModel.OutputEncode
+import RattrProofs.Lemmas.FileAnalyser
 import RattrProofs.Lemmas.C07Induction
 import RattrProofs.Lemmas.C07WideInduction
 import RattrProofs.Lemmas.C07File
@@ -835,5 +839,196 @@ theorem C07_cex_K25_before_bcdf6de :
     Stats.mainTail false .results ⟨2, 0, 0, 0⟩ false (some false) = .crash "OSError" ∧
     Stats.mainTail true .results ⟨2, 0, 0, 0⟩ false (some false) = .fatal ∧
     Stats.mainTail true .stats ⟨0, 0, 0, 0⟩ false (some false) = .crash "ValueError" := by decide +kernel
+
+/-! ## Round 4 — (1) module-level definitions at every block position -/
+
+/-- Tie A (shared with C17): the block visitors of `RootContextBuilder` are ONE `register_stmts` over ALL their blocks
+(`*node.body, *node.orelse` for `If` / `For` / `AsyncFor` / `While`; body, else, finally and every handler for `Try`;
+the body for `With` / `AsyncWith`): `RootCtx.register` on `compound` / `tryStmt` transcribes exactly that. A visitor
+that forgets a block (seeded change C07-m11: `for … else`, `while … else`) changes the table. -/
+theorem tieA_builder_bodies : Generated.C17.builderBodies = RootCtx.builderBodies := by decide
+
+/-- Tie A (shared with C17): the `visit_*` methods of the builder are the modelled ones — there is none for `Match`
+and none for `TryStar` (K11m, K11t below), and no helper the model does not know. -/
+theorem tieA_root_builder_visitors :
+    FileA.sameMembers Generated.RC.rootBuilderVisitors RootCtx.visitorNames = true := by decide
+
+/-- a class with an initialiser -/
+def initCls (n : String) : Top := .classDef (S n) [] [.funcDef (S "__init__") (fps ["self", "q"]) [] [] false] []
+
+/-- `for item in items: pass / else: class C: def __init__ …` and the same below `while`, `if`, `with`, in every block of
+`try`, and two levels deep (`if` → `for … else`). -/
+def mBlocks : List (List Top) :=
+  [[.compound (S "For") [.expr (nm "item"), .expr (nm "items"), .compound (S "Pass") [], initCls "C"]],
+   [.compound (S "While") [.expr (nm "flag"), .compound (S "Pass") [], initCls "C"]],
+   [.compound (S "If") [.expr (nm "flag"), .compound (S "Pass") [], initCls "C"]],
+   [.compound (S "With") [.expr (nm "ctx"), initCls "C"]],
+   [.tryStmt [initCls "A"] [.compound (S "ExceptHandler") [.expr (nm "E"), initCls "B"]] [initCls "C"] [initCls "D"]],
+   [.compound (S "If") [.expr (nm "flag"),
+      .compound (S "For") [.expr (nm "item"), .expr (nm "items"), .compound (S "Pass") [], initCls "C"]]]]
+
+/-- **on the current code** each of them passes the predicate and the file stage ends without an exception (tests by
+evaluation of the model; the implementation side is the block-position corpus of py/props/c07blocks.py, through the
+CLI and in `file_tie`). -/
+theorem C07_file_block_positions_registered :
+    mBlocks.map (shapeFile "target" {}) = List.replicate 6 true ∧
+    mBlocks.map (fun m => crashClassO (FileA.analyseFile cexEnv (S "target") {} exBuiltins m)) = List.replicate 6 none := by
+  decide +kernel
+
+/-- K11m / K11t: the same class below a `case` of `match`, and inside `try … except* …` (`ast.TryStar`: no visitor) —
+`ValueError` of `ClassAnalyser.symbol`; both are rejected by the predicate. (K11t found in round 4.) -/
+def mK11match : List Top :=
+  [.compound (S "Match") [.expr (nm "flag"), .compound (S "match_case") [.expr .const, initCls "C"]]]
+def mK11trystar : List Top :=
+  [.compound (S "TryStar") [initCls "C", .compound (S "ExceptHandler") [.expr (nm "E"), .compound (S "Pass") []]]]
+theorem C07_cex_file_K11_match_trystar :
+    crashClassO (FileA.analyseFile cexEnv (S "target") {} exBuiltins mK11match) = some (S "ValueError") ∧
+    crashClassO (FileA.analyseFile cexEnv (S "target") {} exBuiltins mK11trystar) = some (S "ValueError") ∧
+    shapeFile "target" {} mK11match = false ∧ shapeFile "target" {} mK11trystar = false := by decide +kernel
+
+/-! ## Round 4 — (2) the output side: encoder × stream (RattrModel.OutputEncode) -/
+
+section OutputEncoding
+open Rattr.OutEnc
+
+/-- Tie A: `serialise` is `converter.dumps(model, **kwargs)`, its callers pass `indent=4` or nothing — never
+`ensure_ascii` — and the four output functions hand exactly that text to `print` / `write_text`. -/
+theorem tieA_serialise_sites : Generated.C07.serialiseSites = OutEnc.pinnedSerialiseSites := by decide +kernel
+
+/-- Tie A: the only non-ASCII text of rattr's own code is the `∞` of `show_stats` (K26) and two `--help` texts. -/
+theorem tieA_non_ascii_constants : Generated.C07.nonAsciiConstants = OutEnc.pinnedNonAsciiConstants := by
+  decide +kernel
+
+theorem C07_hexDigit_ascii (n : Nat) (h : n < 16) : hexDigit n < 128 := by
+  unfold hexDigit; split <;> omega
+
+theorem C07_hex4_ascii (n c : Nat) (h : c ∈ hex4 n) : c < 128 := by
+  have h16 : ∀ m : Nat, m % 16 < 16 := fun m => Nat.mod_lt m (by decide)
+  simp only [hex4, List.mem_cons, List.mem_nil_iff, or_false] at h
+  rcases h with h | h | h | h | h | h
+  · omega
+  · omega
+  · rw [h]; exact C07_hexDigit_ascii _ (h16 _)
+  · rw [h]; exact C07_hexDigit_ascii _ (h16 _)
+  · rw [h]; exact C07_hexDigit_ascii _ (h16 _)
+  · rw [h]; exact C07_hexDigit_ascii _ (h16 _)
+
+theorem C07_shortEscape_ascii (n : Nat) (e : PyStr) (h : shortEscape n = some e) (c : Nat) (hc : c ∈ e) : c < 128 := by
+  unfold shortEscape at h
+  repeat' split at h
+  all_goals first
+    | (cases h; done)
+    | (cases h
+       simp only [List.mem_cons, List.mem_nil_iff, or_false] at hc
+       omega)
+
+/-- **`ensure_ascii=True`: every code point — lone surrogates, astral characters, controls — is written in ASCII.** -/
+theorem C07_escAscii_ascii (n c : Nat) (h : c ∈ escAscii n) : c < 128 := by
+  unfold escAscii at h
+  split at h
+  · next e he => exact C07_shortEscape_ascii n e he c h
+  · split at h
+    · split at h
+      · exact C07_hex4_ascii _ _ h
+      · rcases List.mem_append.mp h with h | h <;> exact C07_hex4_ascii _ _ h
+    · next hn => simp at h; omega
+
+theorem C07_dumpStr_ascii (s : PyStr) (c : Nat) (h : c ∈ dumpStr true s) : c < 128 := by
+  simp only [dumpStr, if_true, List.mem_cons, List.mem_append, List.mem_flatMap, List.mem_nil_iff, or_false] at h
+  rcases h with h | ⟨n, _, hn⟩ | h
+  · omega
+  · exact C07_escAscii_ascii n c hn
+  · omega
+
+theorem C07_render_ascii : ∀ (doc : List Tok), PunctAscii doc = true → ∀ c ∈ render true doc, c < 128
+  | [], _, c, h => by simp [render] at h
+  | .punct p :: r, hp, c, h => by
+    simp only [PunctAscii, Bool.and_eq_true, List.all_eq_true, decide_eq_true_eq] at hp
+    simp only [render, List.mem_append] at h
+    rcases h with h | h
+    · exact hp.1 c h
+    · exact C07_render_ascii r hp.2 c h
+  | .str s :: r, hp, c, h => by
+    simp only [PunctAscii] at hp
+    simp only [render, List.mem_append] at h
+    rcases h with h | h
+    · exact C07_dumpStr_ascii s c h
+    · exact C07_render_ascii r hp c h
+
+theorem C07_ascii_encodable (cd : Codec) (n : Nat) (h : n < 128) : encodable cd n = true := by
+  cases cd <;> simp [encodable, isSurrogate] <;> omega
+
+/-- **the output documents are always written**: whatever strings the results / IR / cache document holds (names from
+identifiers and from string literals: any code points) and whatever the stream's encoding (ASCII, Latin-1, UTF-8), with
+the pinned `ensure_ascii` the `print` / `write_text` of the output stage does not raise. -/
+theorem C07_output_documents_always_written (cd : Codec) (doc : List Tok) (hp : PunctAscii doc = true) :
+    emit cd pinnedEnsureAscii doc = .written := by
+  unfold emit write pinnedEnsureAscii writable
+  rw [if_pos]
+  rw [List.all_eq_true]
+  intro c hc
+  exact C07_ascii_encodable cd c (C07_render_ascii doc hp c hc)
+
+/-- without `ensure_ascii` the text keeps every code point `≥ 32` that is no quote / backslash … -/
+theorem C07_escRaw_keeps (n : Nat) (h32 : 32 ≤ n) (hq : n ≠ 34) (hb : n ≠ 92) : escRaw n = [n] := by
+  have : shortEscape n = none := by
+    unfold shortEscape
+    repeat' split
+    all_goals first | omega | rfl
+  unfold escRaw
+  rw [this]
+  simp; omega
+
+/-- … so a document with ONE string holding a code point the stream cannot encode is not written: the seeded change
+C07-m10 (`ensure_ascii=False`) on `getattr(o, "\ud83d")` under any UTF codec, on `höhe` under an ASCII stream. -/
+theorem C07_raw_unencodable_raises (cd : Codec) (pre post : PyStr) (n : Nat) (before after : List Tok)
+    (h32 : 32 ≤ n) (hq : n ≠ 34) (hb : n ≠ 92) (hn : encodable cd n = false) :
+    emit cd false (before ++ .str (pre ++ n :: post) :: after) = .raised "UnicodeEncodeError" := by
+  have hmem : n ∈ render false (before ++ .str (pre ++ n :: post) :: after) := by
+    have : ∀ b : List Tok, n ∈ render false (b ++ .str (pre ++ n :: post) :: after) := by
+      intro b
+      induction b with
+      | nil =>
+        simp only [List.nil_append, render, dumpStr, List.mem_append, List.mem_cons, List.flatMap_append,
+          List.flatMap_cons]
+        left; right; left; right; left
+        simp [C07_escRaw_keeps n h32 hq hb]
+      | cons t r ih =>
+        cases t <;> simp only [List.cons_append, render, List.mem_append] <;> exact Or.inr ih
+    exact this before
+  unfold emit write
+  rw [if_neg]
+  unfold writable
+  rw [List.all_eq_true]
+  intro hall
+  have := hall n hmem
+  rw [hn] at this
+  cases this
+
+/-- the witnesses of the corpus, by evaluation: the lone surrogate of `getattr(o, "\ud83d")`, `höhe`, an astral
+character — written under every codec with the pinned flag; with `ensure_ascii=False` the surrogate raises under UTF-8,
+`höhe` and the astral character under ASCII (the astral one also under Latin-1) and pass under UTF-8. -/
+theorem C07_cex_ensure_ascii_false :
+    [Codec.ascii, .latin1, .utf8].map (fun cd => emit cd true [.punct [123], .str [0xD83D], .punct [125]]) =
+      List.replicate 3 .written ∧
+    emit .utf8 false [.str [111, 46, 0xD83D]] = .raised "UnicodeEncodeError" ∧
+    emit .ascii false [.str [104, 0xF6, 104, 101]] = .raised "UnicodeEncodeError" ∧
+    emit .latin1 false [.str [104, 0xF6, 104, 101]] = .written ∧
+    emit .utf8 false [.str [104, 0xF6, 104, 101]] = .written ∧
+    emit .latin1 false [.str [0x1F600]] = .raised "UnicodeEncodeError" ∧
+    emit .utf8 false [.str [0x1F600]] = .written ∧
+    dumpStr true [0x1F600] = [34, 92, 117, 100, 56, 51, 100, 92, 117, 100, 101, 48, 48, 34] := by decide +kernel
+
+/-- K26 (found in round 4): `--stdout stats` prints `∞` (threshold 0): an ASCII / Latin-1 stream raises, for every
+input. (`C07_main_tail_no_crash` above is about the numbers of the table; it takes a stream that can carry the text.) -/
+theorem C07_cex_K26_stats_infinity :
+    write .ascii statsInfinity = .raised "UnicodeEncodeError" ∧
+    write .latin1 statsInfinity = .raised "UnicodeEncodeError" ∧
+    write .utf8 statsInfinity = .written := by decide +kernel
+
+example : PunctAscii [.punct [123, 10, 32], .str [0xD83D, 0x1F600, 0], .punct [58, 32], .str [], .punct [125]] = true := by
+  decide
+
+end OutputEncoding
 
 end Rattr.C07
